@@ -383,9 +383,37 @@ func (fc *FnCtx) loopStep(b, h *ssa.BasicBlock) {
 		env.visKey = fc.loopVisKey(h)
 		env.loopPre = fc.loopPre[h]
 		env.iterPre = fc.iterPre[h]
+		env.iterVars = fc.hdrVars[h]
 		for i, inv := range ls.Invariants {
 			t := env.boolExpr(inv.Expr)
 			fc.oblige("inv-step", fmt.Sprintf("L%d.%d", n, i+1), lastPos(b), t, inv.Src, inv.Name)
+		}
+		// per-iteration claims (`loop N step`): what one pass through the body has done, stated over prev() and the
+		// body's own variables.  Checked here only; on a back edge that leaves the body before one of the named
+		// variables exists the claim does not apply.
+		for i, st := range ls.Steps {
+			func() {
+				defer func() {
+					if r := recover(); r != nil {
+						if ce, ok := r.(cxError); ok && strings.Contains(ce.msg, "unknown identifier") {
+							fc.g.note("loop step clause [" + st.Name + "] does not apply on the back edge at " + fc.g.ld.fset.Position(lastPos(b)).String() + ": " + ce.msg)
+							return
+						}
+						panic(r)
+					}
+				}()
+				fc.usedLocals = map[string]bool{}
+				t := env.boolExpr(st.Expr)
+				used := fc.usedLocals
+				fc.usedLocals = nil
+				for nm := range used {
+					if db := fc.debugDefBlock[nm]; db != nil && db != b && !db.Dominates(b) {
+						fc.g.note("loop step clause [" + st.Name + "] does not apply on the back edge at " + fc.g.ld.fset.Position(lastPos(b)).String() + ": " + nm + " is not defined on that path")
+						return
+					}
+				}
+				fc.oblige("inv-step", fmt.Sprintf("L%d.s%d", n, i+1), lastPos(b), t, st.Src, st.Name)
+			}()
 		}
 		if ls.Decreases != nil {
 			envOld := fc.envAt(fc.exitOrCur(h), fc.hdrVars[h])
